@@ -21,16 +21,10 @@ pub fn view(vc: &VolCtx, img: &Image) -> View {
 }
 
 impl View {
-    pub fn used(&self, vc: &VolCtx) -> BTreeSet<u32> {
-        refat::used_clusters(&self.fats[0], &vc.vol)
-    }
-    pub fn owned(&self) -> BTreeSet<u32> {
-        self.tree.owner.keys().cloned().collect()
-    }
     /// allocated but referenced by nothing
     pub fn lost(&self, vc: &VolCtx) -> BTreeSet<u32> {
-        let o = self.owned();
-        self.used(vc).into_iter().filter(|c| !o.contains(c)).collect()
+        let v = &vc.vol;
+        (2..v.clusters + 2).filter(|&c| refat::low(v, self.fats[0][c as usize]) != 0 && self.tree.owner_idx[c as usize] == 0).collect()
     }
     pub fn free(&self, vc: &VolCtx) -> u32 {
         refat::count_free(&self.fats[0], &vc.vol)
